@@ -434,6 +434,9 @@ class UserError(Exception):
     """An ordinary exception raised by user code inside the with-body."""
 
 
+MAX_CRASH_POINTS = 1200
+
+
 class C15B(EngineBase):
     prop = "C15"
     name = "c15b"
@@ -795,6 +798,13 @@ class C15B(EngineBase):
             return
         if cfg.get("all_points"):
             points = range(1, total + 1)
+            if total > MAX_CRASH_POINTS:
+                # crashing at each of n lines re-runs the scenario n times:
+                # beyond this size a seeded sample of the lines is taken
+                # (one long run must not come near the per-run watchdog)
+                pick = random.Random(total * 7919 + cfg.get("exit_at", 0))
+                points = sorted(pick.sample(range(1, total + 1), MAX_CRASH_POINTS))
+                st.stats["oracle.crash_points_sampled_runs"] += 1
         else:
             if "crash_n" not in cfg:
                 cfg["crash_n"] = 1 + int(cfg["crash"] * total)
